@@ -530,6 +530,8 @@ func BatchFunc[T any](
 					return
 				}
 				batch = append(batch, item)
+				// The item is in the batch from now on: its wait includes the time full() takes.
+				arrived := time.Now()
 				if full(batch) { // Case (A): the batch is full.
 					stopTimer()
 					if !flush() {
@@ -537,7 +539,7 @@ func BatchFunc[T any](
 					}
 				}
 				if len(batch) == 1 { // Bookkeeping for case (B).
-					batchStart = time.Now()
+					batchStart = arrived
 					if waitingAtEmpty {
 						startTimer()
 					}
